@@ -5,6 +5,6 @@ id=$1; shift
 cd /repo && git status --short | grep -v '^??' | head -1 | grep -q . && { echo "/repo not clean"; exit 9; }
 git -C /repo apply /verif/seeded/$id/patch.diff || { echo "patch does not apply"; exit 9; }
 for c in "$@"; do
-  (cd /verif && timeout 1500 ./check $c --no-validate > /tmp/seedrun_${id}_$c.log 2>&1; echo "$id $c exit=$? $(grep -c '^VIOLATION' /tmp/seedrun_${id}_$c.log) violation line(s): $(grep -m2 'role=' /tmp/seedrun_${id}_$c.log | tr '\n' ' ' | cut -c1-300)")
+  (cd /verif && VERIF_EVIDENCE_DIR=/tmp/seed_evidence timeout 1500 ./check $c --no-validate > /tmp/seedrun_${id}_$c.log 2>&1; echo "$id $c exit=$? $(grep -c '^VIOLATION' /tmp/seedrun_${id}_$c.log) violation line(s): $(grep -m2 'role=' /tmp/seedrun_${id}_$c.log | tr '\n' ' ' | cut -c1-300)")
 done
 git -C /repo checkout -- .
